@@ -186,7 +186,8 @@ def generate(cls, rng):
             dict(kind="pct", d=rng.choice([2, 3]),
                  horizon=rng.choice([300, 1500, 5000])),
             dict(kind="crit", k=rng.choice([1, 2, 3]),
-                 q=rng.choice([0.05, 0.15, 0.4]), p=rng.choice([0.0, 0.02]))])
+                 q=rng.choice([0.05, 0.15, 0.4]), p=rng.choice([0.0, 0.02])),
+            dict(kind="pbx", k=rng.choice([1, 1, 2, 3])), dict(kind="pbx", k=rng.choice([1, 1, 2, 3]))])
         return dict(init=init, threads=threads,
                     sched=dict(strategy=strat, seed=rng.getrandbits(32)))
     from dsim import depth as DP
